@@ -342,34 +342,38 @@ func checkC07(c *Ctx, r *Report) {
 		r.Floor("C07.R3", n, 1, "returns of SliceSize")
 	}
 	for _, f := range c.FuncsNamed(headersPkg + ".validateRange") {
-		want := map[string]bool{"0>p0": false, "0>p1": false, "p0>=p2": false, "p1>=p2": false, "p0>p1": false}
-		eachInstr(f, func(in ssa.Instruction) {
-			ret, ok := in.(*ssa.Return)
-			if !ok || !isNilConst(ret.Results[0]) {
-				return
-			}
-			have := map[string]bool{}
-			for _, fc := range factsAt(f, ret) {
-				if a, ok := cmpAtom(f, fc.cond, fc.truth); ok {
-					have[a] = true
-				}
-			}
-			// each required disjunct must be known false: i.e. its negation is a fact
-			neg := map[string]string{"0>p0": "0<=p0", "0>p1": "0<=p1", "p0>=p2": "p0<p2", "p1>=p2": "p1<p2", "p0>p1": "p0<=p1"}
-			for w, ng := range neg {
-				if have[ng] {
-					want[w] = true
-				}
-			}
-		})
-		var missing []string
-		for w, ok := range want {
-			if !ok {
-				missing = append(missing, w)
-			}
+		if len(f.Params) != 3 {
+			r.Undecided("C07.R3", "validateRange signature", c.Pos(f.Pos()), "expected (start, end, size)")
+			continue
 		}
-		sort.Strings(missing)
-		r.Check(len(missing) == 0, "C07.R3", "validateRange accepts only 0 <= start <= end < size", c.Pos(f.Pos()), "nil is returned only when start<0, end<0, start>=size, end>=size and start>end are all false", "validateRange can return nil although one of the refusal conditions holds; not excluded: "+strings.Join(missing, ", ")+" (p0=start, p1=end, p2=size)")
+		st, en, sz := "$"+f.Params[0].Name(), "$"+f.Params[1].Name(), "$"+f.Params[2].Name()
+		classify := func(a string) string {
+			switch a {
+			case st + ">-1":
+				return "!sNeg"
+			case en + ">-1":
+				return "!eNeg"
+			case st + "<" + sz:
+				return "sLtD"
+			case en + "<" + sz:
+				return "eLtD"
+			case en + "<" + st:
+				return "eLtS"
+			case st + "<" + en:
+				return "sLtE"
+			}
+			return ""
+		}
+		bs := &boolSummer{li: li}
+		ok, detail, n := bs.checkTable(f, 0, classify, func(v map[string]bool) (bool, bool) {
+			// arithmetic consistency of the orderings: start<end and end<start cannot both hold
+			if v["sLtE"] && v["eLtS"] {
+				return false, false
+			}
+			return !v["sNeg"] && !v["eNeg"] && v["sLtD"] && v["eLtD"] && !v["eLtS"], true
+		})
+		r.Check(ok, "C07.R3", "validateRange accepts exactly 0 <= start <= end < size", c.Pos(f.Pos()), detail, "validateRange's acceptance differs from 'start>=0 ∧ end>=0 ∧ start<size ∧ end<size ∧ start<=end': "+detail)
+		r.Floor("C07.R3", n, 16, "rows of validateRange's truth table")
 	}
 
 	// ---- R4 accumulators
